@@ -101,8 +101,11 @@ fn gen_history(r: &mut Rng, n: usize) -> (Vec<COp>, Vec<COp>) {
             for _ in 0..r.range(1, 3) {
                 uniq += 1;
                 let k = *r.pick(&["c1", "c2", "cnum"]);
-                let kind: &'static str = if k == "cnum" { "increment" } else { *r.pick(&["set", "set", "remove", "set-safe"]) };
+                // the counter key gets increments and, now and then, a plain numeric set (a session that sets and then
+                // increments its counter has one definite order, however far the replication loop lags behind)
+                let kind: &'static str = if k == "cnum" { if r.chance(1, 3) { "set" } else { "increment" } } else { *r.pick(&["set", "set", "remove", "set-safe"]) };
                 let line = match kind {
+                    "set" if k == "cnum" => format!("set {} {}", k, 10 * uniq),
                     "set" => format!("set {} w{}", k, uniq),
                     "set-safe" => format!("set-safe {} {} t{}", k, r.below(3), uniq),
                     "remove" => format!("remove {}", k),
